@@ -4,11 +4,7 @@ import os, json, re
 ROOT = os.path.dirname(os.path.dirname(os.path.abspath(__file__)))
 sd = os.path.join(ROOT, 'seeded')
 WHY_MISSED = {
-    'C06-a': 'narrowing `len` to 16 bits changes the struct layout the lowering pins as a pattern fact: reported as UNDECIDED (exit 2, extraction break), not as a violation; the effect needs a token of 65536 bytes or more',
-    'C14-a': 'the change is inside reduce_value_impl (std::move of the pack-expanded arguments): dropped by R13, no C text to put a contract on',
-    'C14-b': 'the change is in the helper functor ftors::emplace_back (template machinery, C19 territory): outside the extraction',
-    'C17-b': 'the change is in the regex_term constructor (index_sequence length of a pack-expansion copy): outside the extraction (R18)',
-    'C18-b': 'the change is in the custom_term constructor (which associativity it hands to its base class): class-level C++, outside the extraction',
+    'C14-b': 'the change is in the parameter list of the helper functor ftors::emplace_back (`Arg&&` -> `const Arg&`, so the std::move in its body copies): signature-level template machinery (C19 territory), outside the extraction',
 }
 rows, results = [], {}
 for sid in sorted(os.listdir(sd)):
